@@ -42,7 +42,7 @@ def gen_plan(rng, tier, index):
             'noise_cov': rng.chance(0.3), 'cov_seed': rng.randrange(10 ** 6),
             'use_exact_signal': rng.chance(0.7), 'use_same_signal': rng.chance(0.4),
             'signal_cov': rng.chance(0.12), 'noise_cov_trial': rng.chance(0.2),
-            'label_offset': rng.pick([0, 0, 0, 250000, 1700000000]),
+            'label_offset': rng.pick([0, 0, 0, 250000, 1700000000]), 'int_rdm': rng.chance(0.2),
             'faults': {'rate': 0, 'kinds': []}}
     return plan
 
@@ -108,7 +108,7 @@ def _design(plan):
     cond_vec, part_vec = make_design(nc, n_part)
     r = random.Random(plan['perm_seed'])
     cv = np.array(cond_vec)
-    if plan['design'] in ('shuffled', 'shuffled_relabelled'):
+    if plan['design'] in ('shuffled', 'shuffled_relabelled') or (plan['design'] in ('matrix', 'matrix_mixed') and plan['perm_seed'] % 2):
         idx = list(range(len(cv)))
         r.shuffle(idx)
         cv = cv[idx]
@@ -167,7 +167,13 @@ def _model(plan):
     nc = plan['n_cond']
     iu = np.triu_indices(nc, 1)
     D = [_sqdist(p) for p in plan['points']]
-    if plan['kind'] == 'fixed':
+    if plan['kind'] == 'fixed' and plan.get('int_rdm'):
+        # a hand-written / categorical model RDM held in an integer dtype (points scaled to integers: D is 4x and integral)
+        Di = np.rint(4 * D[0])
+        m = ModelFixed('simfixedint', Di[iu].astype(np.int64))
+        pred = Di
+        theta = None
+    elif plan['kind'] == 'fixed':
         m = ModelFixed('simfixed', RDMs(D[0][iu].reshape(1, -1)))
         pred = D[0]
         theta = None
